@@ -120,10 +120,18 @@ def one_side(impl, case, sc, pert):
         if pert == "syncfail":
             plan = sim.sync_plan
             which = rng.randrange(4)
+            which2 = rng.randrange(6)          # (4, 5: a record whose id is not in the FileSync id table at all)
             for st_ in sc["steps"]:
                 pth = st_.get("path", "").encode()
                 if st_["op"] == "pull":
-                    plan.recv_raw[pth] = [wire.sync_fail(b"no such file"), wire.sync_data(b"ab") + wire.sync_fail(b"io error \xff"), struct.pack("<II", wire.ID_OKAY, 0), struct.pack("<II", wire.ID_DENT, 0)][which]
+                    plan.recv_raw[pth] = [wire.sync_fail(b"no such file"), wire.sync_data(b"ab") + wire.sync_fail(b"io error \xff"), struct.pack("<II", wire.ID_OKAY, 0), struct.pack("<II", wire.ID_DENT, 0),
+                                          b"STA2" + struct.pack("<I", 3) + b"xyz", b"\x00\x01\x02\x03" + struct.pack("<I", 0)][which2]
+                elif st_["op"] == "list":
+                    if which2 >= 4:
+                        plan.list_raw[pth] = [b"DNT2" + struct.pack("<I", 0), b"junk" + struct.pack("<I", 2) + b"ab"][which2 - 4]
+                elif st_["op"] == "stat":
+                    if which2 >= 4:
+                        plan.stat_raw[pth] = [b"STA2" + struct.pack("<III", 1, 2, 3), b"LST2" + struct.pack("<III", 0, 0, 0)][which2 - 4]
                 elif st_["op"] == "push":
                     if which < 2:
                         plan.send_fail[pth] = ([("send"), ("data", 1)][which], b"denied")
